@@ -11,6 +11,7 @@ import AquaDrv.C25Ops
 import AquaDrv.C23Ops
 import AquaDrv.C18Ops
 import AquaDrv.C16Ops
+import AquaDrv.C01Ops
 import AquaDrv.C10Ops
 import AquaDrv.C28Ops
 import AquaDrv.C14Ops
@@ -43,6 +44,7 @@ def dispatch (j : Json) : Json :=
   | "verify_data" => opVerifyData j
   | "salted_data" => opSaltedData j
   | "c27" => opC27 j
+  | "c01_exec" => opC01Exec j
   | "ping" => Json.mkObj [("pong", true)]
   | op => Json.mkObj [("error", s!"unknown op {op}")]
 
